@@ -335,6 +335,13 @@ static std::vector<ClassCfg> classes() {
     v.push_back(ClassCfg{"ICMP", []() -> PDU* { ICMP* i = new ICMP(ICMP::PARAM_PROBLEM); i->extensions().add_extension(ICMPExtension(1, 1));
                              i->inner_pdu(IP("2.2.2.2", "1.1.1.1") / UDP(7, 9) / RawPDU(pattern(140))); return i; },
                          &parse_q<ICMP>, RawOps(), false, {}, {"type"}});
+    // MLDv2 report pre-loaded with a record whose auxiliary data exceeds 255 bytes (Aux Data Len counts 32-bit words, up to 1020 bytes)
+    // followed by a second record: the parser has to find the second record behind the first one's auxiliary data
+    v.push_back(ClassCfg{"ICMPv6", []() -> PDU* { ICMPv6* c = new ICMPv6(ICMPv6::MLD2_REPORT); ICMPv6::multicast_address_records_list l;
+                             ICMPv6::multicast_address_record r; r.type = 2; r.multicast_address = "ff02::16"; r.aux_data = pattern(300, 0x36); l.push_back(r);
+                             r.type = 1; r.sources.push_back("2001:db8::5"); r.aux_data = pattern(8, 0x37); l.push_back(r);
+                             c->multicast_address_records(l); return c; },
+                         &parse_q<ICMPv6>, RawOps(), false, {"ICMPv6.multicast_address_records"}, {"type", "sequence", "router_lifetime", "multicast_address_records"}});
     return v;
 }
 
